@@ -109,6 +109,8 @@ func init() {
 			p := &engine.Profile{Targets: two, MinOps: 4, MaxOps: 11, PMulti: 35, PPoison: 20, PEq: 10, PDevReject: 10, PDelete: 25, PRollback: 18, PEnv: 25, PNoWait: 60, PSync: 20, PStartOffline: 40, PDevFault: 12, Paths: "rich"}
 			if c.Index%2 == 1 {
 				p.PStoreFault = 12
+			} else {
+				p.IdleCheck = true // no injected store errors: an idle system has no retry pending that could explain progress
 			}
 			return p
 		})
